@@ -33,6 +33,12 @@ pub struct Features {
     /// how the compiler is given the entry path: abs | rel | dot-rel (./x) | via-symlink (absolute path through a symlink to the tree)
     #[serde(default)]
     pub entry_spelling: String,
+    /// the language server also has the target module open in the editor (same bytes as on disk) before the entry is opened
+    #[serde(default)]
+    pub dep_open: bool,
+    /// visibility only: another module with the same file stem in a different directory exports the same name publicly
+    #[serde(default)]
+    pub stem_collision: bool,
 }
 
 #[derive(Serialize, Deserialize, Clone, Debug)]
@@ -210,6 +216,7 @@ pub fn random_features(seed: u64) -> Features {
     // (layout stays a plain file for the symlinked-directory placement: one question at a time)
     let layout = if placement == "entry-symlinked-dir" && cat != "fault" { "file" } else { layout };
     let cat = if placement == "entry-symlinked-dir" && cat == "ambiguous" { "resolve" } else { cat };
+    let entry_spelling = r.pick(&["abs", "abs", "rel", "dot-rel", "via-symlink", "bare"]).to_string();
     let a = r.below(90) + 10;
     let b = r.below(90) + 10;
     let c = r.below(90) + 10;
@@ -226,7 +233,10 @@ pub fn random_features(seed: u64) -> Features {
         pub_item: item_name(item_kind, &format!("pub_item_{b}")),
         hidden_item: item_name(item_kind, &format!("hidden_item_{c}")),
         n: r.range(1, 500),
-        entry_spelling: r.pick(&["abs", "abs", "rel", "dot-rel", "via-symlink", "bare"]).to_string(),
+        entry_spelling: entry_spelling.clone(),
+        dep_open: r.chance(1, 4),
+        // (entry-level, plainly spelled imports only: one question at a time)
+        stem_collision: cat == "visibility" && prefix == "plain" && entry_spelling == "abs" && (placement == "entry-root" || placement == "entry-nested") && r.chance(1, 2),
     }
 }
 
@@ -379,7 +389,23 @@ pub fn build(f: &Features, order_seed: u64) -> Scn {
     let imported = if private { &hidden_item } else { &pub_item };
     let (stmt, local) = import_stmt(&f.spelling, prefix, &segs, imported);
     let mut imp_src = marker(&importer);
+    if f.stem_collision && f.cat.starts_with("visibility") && !symlinked_early(f) {
+        // ... and the same item *name* is imported (legitimately, it is pub there) from the lookalike on an earlier line
+        imp_src.push_str(&format!("from lookalike.{tname} import {hidden_item} as from_lookalike_{n}\n"));
+    }
     imp_src.push_str(&stmt);
+    if f.stem_collision && f.cat.starts_with("visibility") && !symlinked_early(f) {
+        // `lookalike/<same stem>.incn` exports the *hidden* name publicly and is imported too: the verdict for the
+        // private item must come from the module the import names, not from a module that merely shares its stem
+        let decoy_path = format!("{importer_dir}lookalike/{tname}.incn");
+        if tree.get(&decoy_path).is_none() {
+            let mut b = marker(&decoy_path);
+            b.push_str(&item_decl(item_kind, &hidden_item, true, n + 9000));
+            b.push_str("pub def lookalike_only() -> int:\n    return 9\n");
+            tree.file(&decoy_path, &b);
+        }
+        imp_src.push_str(&format!("from lookalike.{tname} import lookalike_only\n"));
+    }
     imp_src.push('\n');
     if importer != entry {
         if f.spelling == "rust-module" {
@@ -439,6 +465,10 @@ pub fn build(f: &Features, order_seed: u64) -> Scn {
         order,
         hash_seed: r.next() | 1,
     }
+}
+
+fn symlinked_early(f: &Features) -> bool {
+    f.placement == "entry-symlinked-dir" && (f.prefix == "parent" || f.prefix == "crate")
 }
 
 fn parent_of(dir: &str) -> String {
@@ -549,6 +579,8 @@ pub fn lsp_view(root: &Path, scn: &Scn, hash_seed: u64) -> LspView {
     let root = root.to_path_buf();
     let entry = scn.entry.clone();
     let importer = scn.importer.clone();
+    let dep_open = scn.f.dep_open;
+    let dep_target = scn.label_target.clone();
     let r = par::instance_timeout(hash_seed, None, std::time::Duration::from_secs(30), move || {
         let mut v = LspView::default();
         let root_c = root.canonicalize().unwrap_or(root.clone());
@@ -575,6 +607,16 @@ pub fn lsp_view(root: &Path, scn: &Scn, hash_seed: u64) -> LspView {
         if let Err(e) = sys.handshake() {
             v.dead = Some(e);
             return v;
+        }
+        if dep_open {
+            if let Some(t) = &dep_target {
+                let p = root_c.join(t);
+                if let Ok(dep_text) = std::fs::read_to_string(&p) {
+                    let dep_uri = format!("file://{}", p.canonicalize().unwrap_or(p.clone()).display());
+                    let _ = sys.deliver_now(&lsp::did_open(&dep_uri, 1, &dep_text), LSP_STEP_BOUND);
+                    let _ = sys.drain_frames();
+                }
+            }
         }
         let uri = format!("file://{}", entry_abs.display());
         match sys.deliver_now(&lsp::did_open(&uri, 1, &text), LSP_STEP_BOUND) {
@@ -667,7 +709,12 @@ fn shape(f: &Features) -> String {
         f.item_kind,
         f.target_dirs.len(),
         if f.prefix == "crate" { f.proj } else { 0 },
-        if f.entry_spelling.is_empty() || f.entry_spelling == "abs" { String::new() } else { format!("|entry={}", f.entry_spelling) }
+        format!(
+            "{}{}{}",
+            if f.entry_spelling.is_empty() || f.entry_spelling == "abs" { String::new() } else { format!("|entry={}", f.entry_spelling) },
+            if f.dep_open { "|dep-open" } else { "" },
+            if f.stem_collision { "|stem-collision" } else { "" }
+        )
     )
 }
 
@@ -942,6 +989,16 @@ pub fn minimise(scn: &Scn, class: &str, outcome: &str, scratch: &Path, fakebin: 
         if !f.entry_spelling.is_empty() && f.entry_spelling != "abs" {
             let mut c = f.clone();
             c.entry_spelling = "abs".into();
+            cands.push(c);
+        }
+        if f.dep_open {
+            let mut c = f.clone();
+            c.dep_open = false;
+            cands.push(c);
+        }
+        if f.stem_collision {
+            let mut c = f.clone();
+            c.stem_collision = false;
             cands.push(c);
         }
         for c in cands {
